@@ -394,7 +394,8 @@ impl Check for C02 {
                 let big = req + resp > 200_000;
                 if !big {
                     let bound = match tier {
-                        Tier::Quick => usize::from(small),
+                        // one deviation also over a multi-packet body in each direction
+                        Tier::Quick => usize::from(small || ((*req == 65_535 || *resp == 65_535) && (*req == 0 || *resp == 0 || req == resp))),
                         Tier::Thorough => if small { 2 } else { 1 },
                     };
                     u.push(json!({"kind":"size","req_len":req,"resp_len":resp,"bound":bound,"fate_budget": if bound>0 {100_000} else {0}}));
